@@ -439,3 +439,10 @@ func verifTraceLeaks(prefix string) int { return 0 }
 func verifTraceClass(class string)      {}
 
 func verifBigHexDigits() []byte { return nil }
+
+func verifIteI64(c bool, a, b int64) int64 {
+	if c {
+		return a
+	}
+	return b
+}
